@@ -104,6 +104,9 @@ def do_check(mod, pid, modname, seed, args):
     if args.limit:
         n = min(n, args.limit)
     known = findings.load(os.path.join(ROOT, "known_findings.json"), pid)
+    import glob
+    for old in glob.glob(os.path.join(ROOT, "replays", f"{pid}-*.json")):
+        os.remove(old)
     pool = runner.Pool(args.src, modname, tier, seed, args.workers)
     agg = Aggregate(mod, pid)
     try:
